@@ -95,7 +95,7 @@ def str_set(e):
 MUTATORS = {"pop", "update", "append", "setdefault", "clear", "remove", "insert", "extend", "sort", "reverse",
             "popitem", "add", "discard", "__setitem__", "__delitem__", "difference_update", "intersection_update",
             "symmetric_difference_update"}
-PURE_CALLS = {"copy", "tuple", "list", "dict", "set", "frozenset", "int", "float", "complex", "str", "bytes", "bool", "repr", "ascii", "abs", "ord", "chr", "format", "round", "divmod", "reversed",
+PURE_CALLS = {"copy", "tuple", "list", "dict", "set", "frozenset", "int", "float", "complex", "str", "bytes", "bool", "repr", "ascii", "hex", "oct", "bin", "abs", "ord", "chr", "format", "round", "divmod", "reversed",
               "isinstance", "len", "map", "filter", "sorted", "enumerate", "zip", "range", "iter", "next", "getattr", "hasattr",
               "literal_eval", "b64decode", "b64encode", "isinf", "isnan", "cast", "fields", "is_dataclass", "replace", "type",
               "ValueError", "NotImplementedError", "TypeError", "print", "any", "all", "sum", "min", "max", "hash", "id"}
@@ -303,7 +303,7 @@ def generate_heap(repo, outpath):
 # ---------------------------------------------------------------------------------------------
 # C12 (sharing): what a function can return, as expressions of coq/Model/FreshDoc.v
 
-IMM_CALLS = {"str", "repr", "ascii", "int", "float", "bool", "len", "isinstance", "isinf", "isnan", "is_dataclass",
+IMM_CALLS = {"str", "repr", "ascii", "hex", "oct", "bin", "int", "float", "bool", "len", "isinstance", "isinf", "isnan", "is_dataclass",
              "field_is_default", "b64encode", "b64decode", "type", "abs", "hash", "ord", "chr", "min", "max", "sum",
              "literal_eval", "complex", "bytes"}
 NEW_CALLS = {"list", "tuple", "dict", "set", "frozenset", "sorted", "copy", "map", "filter", "reversed", "replace", "cast"}
@@ -467,7 +467,8 @@ class FreshTranslator:
                 raise Decline("call of " + n)
             if isinstance(e.func, ast.Attribute):
                 base = self.expr(e.func.value, env)
-                if base == "FImm" and e.func.attr in ("decode", "encode", "hex", "format", "join", "lower", "upper", "real", "imag"):
+                if base == "FImm" and e.func.attr in ("decode", "encode", "hex", "format", "join", "lower", "upper", "real", "imag",
+                                                         "bit_length", "startswith", "endswith", "strip", "lstrip", "rstrip"):
                     return "FImm"
                 if e.func.attr in ("get",):
                     return self.proj(base)
@@ -650,7 +651,7 @@ def generate_fields(repo, outpath):
 
 FALLBACK = {
     "instrsize": "Definition instrsize := PCD.Model.Blocks.instrsize.\n",
-    "int_bounds": "Definition MIN_INTEGER := PCD.Model.Json.MIN_INTEGER.\nDefinition MAX_INTEGER := PCD.Model.Json.MAX_INTEGER.\n",
+    "int_bounds": "Definition MIN_INTEGER := PCD.Model.Json.MIN_INTEGER.\nDefinition MAX_INTEGER := PCD.Model.Json.MAX_INTEGER.\nDefinition MAX_DECIMAL_BITS := PCD.Model.Json.MAX_DECIMAL_BITS.\n",
     "fn_flags": "Definition FN_FLAGS := PCD.Model.CodeData.FN_FLAGS.\nDefinition FN_TYPE_FLAGS := map fst PCD.Model.CodeData.FN_TYPE_FLAGS.\n",
     "c_int": "Definition c_int_upper_limit := PCD.Model.Blocks.c_int_upper_limit.\nDefinition c_int_length := PCD.Model.Blocks.c_int_length.\n",
 }
@@ -686,7 +687,9 @@ def generate(repo, outpath):
         t = parse("_json_data.py")
         lo = expr_z(find_assign(t, "MIN_INTEGER"), {})
         hi = expr_z(find_assign(t, "MAX_INTEGER"), {})
-        return "Definition MIN_INTEGER : Z := %s.\nDefinition MAX_INTEGER : Z := %s.\nDefinition int_bounds_translated := true.\n" % (lo, hi)
+        bits = expr_z(find_assign(t, "MAX_DECIMAL_BITS"), {})
+        return ("Definition MIN_INTEGER : Z := %s.\nDefinition MAX_INTEGER : Z := %s.\nDefinition MAX_DECIMAL_BITS : Z := %s.\n"
+                "Definition int_bounds_translated := true.\n" % (lo, hi, bits))
 
     def fn_flags():
         t = parse("_code_data.py")
